@@ -503,6 +503,9 @@ func drvHybrid(args []string) error {
 						ws = append(ws, hyWords[r.rng.Intn(4)])
 					}
 					text = strings.Join(ws, " ")
+					if r.rng.Intn(12) == 0 {
+						text = " " // white space only: still a token, still a text part
+					}
 				}
 				if r.rng.Intn(4) > 0 {
 					meta = map[string]any{"c": []string{"x", "y"}[r.rng.Intn(2)]}
